@@ -33,12 +33,12 @@ func init() {
 
 // exempt dynamic calls: not managed code (one named construct each, with reason)
 var c06Exempt = map[string]string{
-	"field:m.cancelCtx":                    "context.CancelFunc (stdlib, cannot run user code)",
-	"field:t.cancelCtx":                    "context.CancelFunc (stdlib, cannot run user code)",
-	"field:global:modules.globalPrepFn":    "global prep function runs on the caller's goroutine before any module starts; outside the statement's list",
+	"field:m.cancelCtx":                     "context.CancelFunc (stdlib, cannot run user code)",
+	"field:t.cancelCtx":                     "context.CancelFunc (stdlib, cannot run user code)",
+	"field:global:modules.globalPrepFn":     "global prep function runs on the caller's goroutine before any module starts; outside the statement's list",
 	"field:global:modules.globalShutdownFn": "global shutdown function runs on the Shutdown caller's goroutine; outside the statement's list",
 	"field:global:modules.cmdLineOperation": "command line operation runs on the Start caller's goroutine; outside the statement's list",
-	"field:global:flag.Usage":              "stdlib flag usage printer",
+	"field:global:flag.Usage":               "stdlib flag usage printer",
 }
 
 // managed callee kinds (provenance descriptors) -> what they are
